@@ -41,6 +41,8 @@ def render_vb(kind, minx, miny, w, h, variant):
         w = 0
     if kind == "negative_height":
         h = -h
+    if kind == "negative_both":
+        w, h = -w, -h
     sep = SEPS[variant % len(SEPS)]
     fmt = ["%d", "%.1f", "%d", "%.3f"][(variant // 5) % 4]
     return sep.join(fmt % v for v in (minx, miny, w, h))
@@ -51,6 +53,8 @@ def doc_size(kind, W, H, variant):
         W = 0
     if kind == "negative_doc_height":
         H = -H
+    if kind == "negative_doc_both":
+        W, H = -W, -H
     conv = [int, float, str][variant % 3]
     return conv(W), conv(H)
 
